@@ -32,5 +32,10 @@ run C13 seeded/C13-shutdown-state-before-poll/patch.diff
 run C18 seeded/C18-read-instead-of-read-exact/patch.diff
 run C19 seeded/C19-parked-request-uses-handshake-timeout/patch.diff
 run C01 seeded/C01-udp-forwarder-keeps-first-target/patch.diff
+run C06 seeded/C06-push-for-dropped-stream-frees-slot/patch.diff
+run C14 seeded/C14-non-get-ws-request-skips-backend/patch.diff
+run C16 seeded/C16-keepalive-timeout-not-clamped-to-interval/patch.diff
+# a run that never returns: the watchdog reports it, and the replay wedges again
+VERIF_WEDGE_SECS=10 run C10 seeded/C10-read-guard-held-into-overrun-arm/patch.diff
 rm -rf "$SCR"
 exit $FAIL
